@@ -137,20 +137,40 @@ class Clock:
 
 
 def run_client(cl, nloops=1, now=None):
-    """Run the real mainLoop for nloops iterations; retry and purge intervals are made
-    immediately due; datetime.now() is the virtual clock when 'now' is given."""
-    cl._GenericClient__numberOfLoopToProcess = nloops
-    cl._GenericClient__isStopped = False
+    """Run the real mainLoop for nloops iterations (one mainLoop call)."""
+    run_segment(cl, [{"now": now}] * nloops, lambda i, it: None, lambda i, it: None)
+
+
+def run_segment(cl, iters, before, after):
+    """One call of the real mainLoop covering several loop iterations (no reload in
+    between, as in a running client). before(i, it) sets up iteration i (bus limit, ...),
+    after(i, it) observes the state once its checkpoint is written. Retry and purge
+    intervals are made due at every iteration; datetime.now() is the virtual clock."""
+    state = {"i": 0}
+
+    def setup(i):
+        it = iters[i]
+        if it.get("now") is not None:
+            Clock.now_value = it["now"]
+            C.datetime = Clock._DT
+        else:
+            C.datetime = datetime.datetime
+        cl._GenericClient__trashbin_lastpurge = datetime.datetime(1, 1, 1)
+        cl._GenericClient__errorQueue_lastretry = datetime.datetime(1, 1, 1)
+        before(i, it)
+        cl._GenericClient__numberOfLoopToProcess = 1
 
     def fsleep(x):
-        if not cl._GenericClient__numberOfLoopToProcess:
+        # reached at the top of the loop when the iteration budget is used up
+        if cl._GenericClient__numberOfLoopToProcess:
+            return
+        stop = after(state["i"], iters[state["i"]])
+        state["i"] += 1
+        if state["i"] < len(iters) and not stop:
+            setup(state["i"])
+        else:
             cl._GenericClient__isStopped = True
     C.sleep = fsleep
-    if now is not None:
-        Clock.now_value = now
-        C.datetime = Clock._DT
-    else:
-        C.datetime = datetime.datetime
-    cl._GenericClient__trashbin_lastpurge = datetime.datetime(1, 1, 1)
-    cl._GenericClient__errorQueue_lastretry = datetime.datetime(1, 1, 1)
+    cl._GenericClient__isStopped = False
+    setup(0)
     cl.mainLoop()
